@@ -37,61 +37,82 @@ def aux(ctx, name, value):
     return v
 
 
-def make_psf(ctx, W, I, w=0.55):
+def make_psf(ctx, W, I, w=0.55, n=None):
     from optiland.psf import FFTPSF
     p = FFTPSF.__new__(FFTPSF)
     p.wavelengths = [w]
-    p.num_rays = N
-    p.grid_size = N
+    p.num_rays = n or N
+    p.grid_size = n or N
     p.data = [[(ctx.arr(*W), ctx.arr(*I))]]
     p.pupils = p._generate_pupils()
     p.psf = p._compute_psf()
     return p
 
 
-def dft_power(ctx, P):
-    """|DFT|^2 of the N x N complex grid P[j][k] = (re, im), zero frequency at index N/2 (fftshift)"""
-    tw = [(1.0, 0.0), (0.0, -1.0), (-1.0, 0.0), (0.0, 1.0)]          # exp(-2 pi i m / 4)
-    out = [[None] * N for _ in range(N)]
-    for u in range(N):
-        for v in range(N):
-            fu, fv = (u - N // 2) % N, (v - N // 2) % N
+def twiddles(ctx, n):
+    """exp(-2 pi i m / n), m = 0..n-1, exactly"""
+    if n == 4:
+        return [(1.0, 0.0), (0.0, -1.0), (-1.0, 0.0), (0.0, 1.0)]
+    if n == 3:
+        if ctx.sym:
+            import z3
+            from symopt.sv import SV
+            h, s3h = SV(t=z3.RealVal('1/2')), SV(t=z3.RealVal(3)).sqrt() * SV(t=z3.RealVal('1/2'))
+        else:
+            h, s3h = 0.5, math.sqrt(3.0) / 2
+        return [(1.0, 0.0), (-h, -s3h), (-h, s3h)]
+    raise ValueError(n)
+
+
+def dft_power(ctx, P, n=None):
+    """DFT of the n x n complex grid P[j][k] = (re, im), zero frequency at index n // 2 (fftshift)"""
+    n = n or N
+    tw = twiddles(ctx, n)
+    out = [[None] * n for _ in range(n)]
+    for u in range(n):
+        for v in range(n):
+            fu, fv = (u - n // 2) % n, (v - n // 2) % n
             re, im = 0.0, 0.0
-            for j in range(N):
-                for k in range(N):
-                    c, s = tw[(fu * j + fv * k) % N]
+            for j in range(n):
+                for k in range(n):
                     a, b = P[j][k]
-                    re = re + a * c - b * s
-                    im = im + a * s + b * c
+                    if not ctx.sym and a == 0 and b == 0:
+                        continue
+                    c, s_ = tw[(fu * j + fv * k) % n]
+                    re = re + a * c - b * s_
+                    im = im + a * s_ + b * c
             out[u][v] = (re, im)
     return out
 
 
 def cases_psf(tier):
-    return [dict(kind='aberrated'), dict(kind='unaberrated')]
+    return [dict(kind='aberrated'), dict(kind='unaberrated'), dict(kind='unaberrated', n=3)] + ([dict(kind='aberrated', n=3)] if tier == 'thorough' else [])
 
 
 @harness('C11', 'H1_psf', funcs=FUNCS, cases=cases_psf,
-         bounds='pupil sampling 4, grid 4 (no padding: the 2 x 2 samples inside the unit disk carry the pupil), one wavelength; wavefront errors '
-                '(4 symbolic reals, any size) and intensities (4 symbolic positives) injected as the Wavefront data',
+         bounds='pupil sampling = grid = 4 (even: 4 samples inside the unit disk) and 3 (odd: 5 samples; exact DFT with the algebraic number sqrt 3), no padding, one wavelength; wavefront errors '
+                '(symbolic reals, any size) and intensities (symbolic positives) injected as the Wavefront data',
          doc='pupil = (intensity / mean intensity) exp(i 2 pi W) inside the unit disk and 0 outside; PSF = 100 |DFT(pupil)|^2 / (unaberrated peak) at '
              'every pixel, >= 0, total energy independent of W, central value / 100 (Strehl) <= 1; unaberrated uniform pupil: peak exactly 100 '
              'at the centre')
-def h1_psf(ctx, kind):
+def h1_psf(ctx, kind, n=4):
+    # pupil samples inside the unit disk, in the order of the 'uniform' distribution (row-major over the meshgrid)
+    grid = [-1.0 + 2.0 * i / (n - 1) for i in range(n)]
+    inside = [(j, k) for j in range(n) for k in range(n) if grid[j] ** 2 + grid[k] ** 2 <= 1.0]
+    m = len(inside)
     if kind == 'aberrated':
-        W = [ctx.real(f'W{i}', lo=-30.0, hi=30.0) for i in range(4)]
-        I = [ctx.real(f'I{i}', lo=0.01, hi=10.0) for i in range(4)]
+        W = [ctx.real(f'W{i}', lo=-30.0, hi=30.0) for i in range(m)]
+        I = [ctx.real(f'I{i}', lo=0.01, hi=10.0) for i in range(m)]
     else:
-        W = [0.0] * 4
+        W = [0.0] * m
         i0 = ctx.real('I0', lo=0.01, hi=10.0)
-        I = [i0] * 4
-    p = make_psf(ctx, W, I)
+        I = [i0] * m
+    p = make_psf(ctx, W, I, n=n)
     pup = p.pupils[0]
-    mean_i = (I[0] + I[1] + I[2] + I[3]) / 4
-    inside = [(1, 1), (1, 2), (2, 1), (2, 2)]          # the grid points (+-1/3, +-1/3), in the order of the uniform distribution
-    P = [[parts(ctx, pup[j, k]) for k in range(N)] for j in range(N)]
-    for j in range(N):
-        for k in range(N):
+    mean_i = sum(I[1:], I[0]) / m
+    P = [[parts(ctx, pup[j, k]) for k in range(n)] for j in range(n)]
+    for j in range(n):
+        for k in range(n):
             if (j, k) not in inside:
                 ctx.oblige(f'pupil_zero_outside_{j}{k}', ctx.And(ctx.eq(P[j][k][0], 0.0), ctx.eq(P[j][k][1], 0.0)))
     amp = []
@@ -105,12 +126,12 @@ def h1_psf(ctx, kind):
         else:
             ctx.oblige(f'pupil_value_{j}{k}', ctx.And(ctx.eq(re, 1.0), ctx.eq(im, 0.0)))
         ctx.oblige(f'pupil_modulus_{j}{k}', ctx.eq(re * re + im * im, a * a))
-    F = dft_power(ctx, P)
-    psf = [[ctx.val(p.psf[u, v]) for v in range(N)] for u in range(N)]
-    norm = 16.0                 # peak of the unaberrated 2 x 2 pupil: |1+1+1+1|^2
+    F = dft_power(ctx, P, n)
+    psf = [[ctx.val(p.psf[u, v]) for v in range(n)] for u in range(n)]
+    norm = float(m * m)         # peak of the unaberrated pupil: |1 + ... + 1|^2
     tot = 0.0
-    for u in range(N):
-        for v in range(N):
+    for u in range(n):
+        for v in range(n):
             re, im = F[u][v]
             ctx.oblige(f'psf_{u}{v}_is_squared_modulus_of_dft', ctx.eq(psf[u][v] * norm, 100 * (re * re + im * im)))
             if kind == 'aberrated':
@@ -119,34 +140,41 @@ def h1_psf(ctx, kind):
             else:
                 ctx.oblige(f'psf_{u}{v}_nonneg', ctx.le(0.0, psf[u][v]))
             tot = tot + psf[u][v]
-    ctx.oblige('total_energy_independent_of_aberration', ctx.eq(tot, 100 * (amp[0] * amp[0] + amp[1] * amp[1] + amp[2] * amp[2] + amp[3] * amp[3])))
+    # Parseval: sum |DFT|^2 = n^2 sum |P|^2
+    ctx.oblige('total_energy_independent_of_aberration', ctx.eq(tot * norm, 100 * (n * n) * sum((a * a for a in amp[1:]), amp[0] * amp[0])))
     strehl = ctx.val(p.strehl_ratio())
-    ctx.oblige('strehl_is_central_value', ctx.eq(strehl * 100, psf[N // 2][N // 2]))
+    c0 = n // 2
+    ctx.oblige('strehl_is_central_value', ctx.eq(strehl * 100, psf[c0][c0]))
     if kind == 'unaberrated':
-        ctx.oblige('unaberrated_peak_is_100', ctx.eq(psf[N // 2][N // 2], 100.0))
-        ctx.oblige('unaberrated_peak_is_the_maximum', ctx.And(*[ctx.le(psf[u][v], 100.0) for u in range(N) for v in range(N)]))
+        ctx.oblige('unaberrated_peak_is_100', ctx.eq(psf[c0][c0], 100.0))
+        ctx.oblige('unaberrated_peak_is_the_maximum', ctx.And(*[ctx.le(psf[u][v], 100.0) for u in range(n) for v in range(n)]))
         ctx.oblige('strehl_is_one', ctx.eq(strehl, 1.0))
     else:
-        # |sum P_k|^2 <= (sum a_k)^2 = 16: pairwise Cauchy-Schwarz lemmas (each decided by the solver), then a linear combination
+        # |sum P_k|^2 <= (sum a_k)^2 = m^2: pairwise Cauchy-Schwarz lemmas (each decided by the solver), then a linear combination
         xs = [aux(ctx, f'x{i}', P[j][k][0]) for i, (j, k) in enumerate(inside)]
         ys = [aux(ctx, f'y{i}', P[j][k][1]) for i, (j, k) in enumerate(inside)]
         as_ = [aux(ctx, f'a{i}', a) for i, a in enumerate(amp)]
-        mod = [ctx.eq(xs[i] * xs[i] + ys[i] * ys[i], as_[i] * as_[i]) for i in range(4)]
-        pos = [as_[i] >= 0 for i in range(4)]
+        mod = [ctx.eq(xs[i] * xs[i] + ys[i] * ys[i], as_[i] * as_[i]) for i in range(m)]
+        pos = [as_[i] >= 0 for i in range(m)]
         lem = []
-        for i in range(4):
-            for j in range(i + 1, 4):
+        for i in range(m):
+            for j in range(i + 1, m):
                 c = ctx.le(xs[i] * xs[j] + ys[i] * ys[j], as_[i] * as_[j])
                 ctx.oblige(f'cauchy_schwarz_{i}{j}', ctx.Implies(ctx.And(mod[i], mod[j], pos[i], pos[j]), c))
                 lem.append(c)
-        ctx.oblige('amplitudes_sum_to_the_number_of_samples', ctx.eq(as_[0] + as_[1] + as_[2] + as_[3], 4.0))
-        sx, sy, sa = xs[0] + xs[1] + xs[2] + xs[3], ys[0] + ys[1] + ys[2] + ys[3], as_[0] + as_[1] + as_[2] + as_[3]
+        sx, sy, sa = sum(xs[1:], xs[0]), sum(ys[1:], ys[0]), sum(as_[1:], as_[0])
+        ctx.oblige('amplitudes_sum_to_the_number_of_samples', ctx.eq(sa, float(m)))
         ctx.oblige('peak_amplitude_bounded', ctx.Implies(ctx.And(*mod, *lem), ctx.le(sx * sx + sy * sy, sa * sa)))
         # (the three facts are chained below over fresh variables: each link is a solver query of its own)
         st = aux(ctx, 'st', strehl)
         pk = aux(ctx, 'pk', sx * sx + sy * sy)
-        ctx.oblige('strehl_at_most_one', ctx.Implies(ctx.And(ctx.le(pk, sa * sa), ctx.eq(sa, 4.0), ctx.eq(st * norm, pk)), ctx.le(st, 1.0)))
-        ctx.oblige('strehl_is_peak_amplitude', ctx.eq(strehl * norm, sx * sx + sy * sy))
+        pc = aux(ctx, 'pc', psf[c0][c0])
+        rc, ic = aux(ctx, 'rc', F[c0][c0][0]), aux(ctx, 'ic', F[c0][c0][1])
+        ctx.oblige('central_dft_sample_is_the_sum_of_the_pupil', ctx.And(ctx.eq(rc, sx), ctx.eq(ic, sy)))
+        ctx.oblige('central_pixel_over_fresh_variables', ctx.eq(pc * norm, 100 * (rc * rc + ic * ic)))
+        ctx.oblige('strehl_is_peak_amplitude', ctx.Implies(ctx.And(ctx.eq(pc * norm, 100 * (rc * rc + ic * ic)), ctx.eq(st * 100, pc),
+                                                                   ctx.eq(rc, sx), ctx.eq(ic, sy), ctx.eq(pk, sx * sx + sy * sy)), ctx.eq(st * norm, pk)))
+        ctx.oblige('strehl_at_most_one', ctx.Implies(ctx.And(ctx.le(pk, sa * sa), ctx.eq(sa, float(m)), ctx.eq(st * norm, pk)), ctx.le(st, 1.0)))
     ctx.observe('strehl', strehl)
 
 
